@@ -57,6 +57,18 @@ func (g *progGen) atom(nvars int) []int {
 	return a
 }
 
+// panelQuery asks for every fact of one predicate (at its base arity)
+func (g *progGen) panelQuery() *ARule {
+	p := g.r.Intn(len(g.arity))
+	a := []int{p}
+	h := []int{queryPred}
+	for i := 0; i < g.arity[p]; i++ {
+		a = append(a, -(i + 1))
+		h = append(h, -(i + 1))
+	}
+	return &ARule{H: h, B: [][]int{a}, G: []AGuard{}}
+}
+
 func bodyVars(b [][]int) []int {
 	seen := map[int]bool{}
 	out := []int{}
@@ -219,7 +231,9 @@ func init() {
 				}
 			}
 			out(AuthzCase{ID: fmt.Sprintf("ga%d", i), Emb: seed*1000003 + int64(i), Toks: []AToken{tok},
-				Script: []AOp{{Op: "new", A: 0, T: 0}, {Op: "add", A: 0, Az: az, Mode: []string{"", "block", "authorizer", "text"}[i%4]}, {Op: "authorize", A: 0}, {Op: "world", A: 0}}})
+				Script: []AOp{{Op: "new", A: 0, T: 0}, {Op: "add", A: 0, Az: az, Mode: []string{"", "block", "authorizer", "text"}[i%4]}, {Op: "authorize", A: 0}, {Op: "world", A: 0},
+					// the documented workflow continues: query the authorizer, authorize again (same outcome, same facts)
+					{Op: "query", A: 0, Q: g.panelQuery()}, {Op: "authorize", A: 0}, {Op: "world", A: 0}}})
 		}
 	}
 }
